@@ -8,6 +8,8 @@ Oracle: Q[S](v) = P(s | do(v minus s)) on the witness SCM by truncated factorisa
 
 from __future__ import annotations
 
+from functools import lru_cache
+
 from ..graphs import (
     G,
     ancestors_inc,
@@ -27,6 +29,7 @@ from ..y0util import V, snapshot, to_y0
 TITLE = "Tian-Pearl c-factor identification returns the true c-factor"
 
 
+@lru_cache(maxsize=None)
 def _universe(tier):
     if tier == "quick":
         return [g for n in (1, 2, 3) for g in enum_L(n)] + list(enum_O(4, max_edges=4))
@@ -49,7 +52,8 @@ def describe(tier):
             else "graphs: L(1..3) + O(4) all name-ordered four-node ADMGs + L(4, <=4 edges)"
         )
         + "; every linear extension as topological order; every district T; every non-empty C in T with G[C] one district; "
-        "Q[T] supplied as computed by compute_c_factor from P(V) and as the hand-written Lemma-1 product; every ancestral set "
+        "Q[T] supplied as computed by compute_c_factor from P(V) / from a population-tagged joint, as the hand-written Lemma-1 "
+        "product, and (when V minus T precedes T) as the plain or population-tagged conditional P(T | V minus T); every ancestral set "
         "for the c-factor routines (Lemma 1 from P(A), Lemma 4 from Sum P(V)"
         + (", first and last linear extension only" if tier == "quick" else "")
         + "); binary + ternary witness; every assignment",
@@ -75,7 +79,7 @@ def eval_q(res, expr, s, models, case, clause, what):
         except Malformed as e:
             res.violation(clause, dict(case, profile=label), f"{what} = {expr}: {e}")
             return False
-        world = World({None: m})
+        world = World({None: m, "π1": m})
         for env in envs(m.card, {(n, None) for n in m.order}):
             res.transitions += 1
             want = q_truth(m, s, env)
@@ -95,7 +99,9 @@ def eval_q(res, expr, s, models, case, clause, what):
 
 def explore_graph(res: Res, g: G, tier, seed, only=None):
     from y0.algorithm.tian_id import compute_c_factor, identify_district_variables
-    from y0.dsl import P, Product, Sum
+    from y0.dsl import Distribution, P, PopulationProbability, Product, Sum, Variable
+
+    POP = Variable("π1")
 
     yg = to_y0(g)
     before = snapshot(yg)
@@ -125,6 +131,24 @@ def explore_graph(res: Res, g: G, tier, seed, only=None):
             # hand-written Lemma 1 product as an alternative input
             lemma1 = Product.safe(P(V(n) | vt[: topo.index(n)]) if topo.index(n) else P(V(n)) for n in t)
             inputs = [("lemma1", lemma1)] + ([("computed", qt)] if ok and qt != lemma1 else [])
+            others = [n for n in topo if n not in t]
+            if others and list(topo[: len(others)]) == others:
+                # V minus T precedes T: the Lemma-1 product telescopes to the plain conditional P(T | V minus T)
+                tv, ov = [V(n) for n in topo if n in t], [V(n) for n in others]
+                inputs.append(("conditional", P(Distribution(children=tuple(tv), parents=tuple(ov)))))
+                inputs.append(
+                    ("pop_conditional", PopulationProbability(population=POP, distribution=Distribution(children=tuple(tv), parents=tuple(ov))))
+                )
+            try:
+                qt_pop = compute_c_factor(
+                    district=[V(n) for n in t],
+                    subgraph_variables=set(vt),
+                    subgraph_probability=PopulationProbability(population=POP, distribution=joint.distribution),
+                    graph_topo=vt,
+                )
+                inputs.append(("pop_computed", qt_pop))
+            except Exception as e:  # noqa
+                res.violation("c_factor", case, f"compute_c_factor on a population joint raised {type(e).__name__}: {e}")
             for c in subsets(t, 1):
                 if len(districts(subgraph(g, c))) != 1:
                     continue
@@ -190,7 +214,7 @@ def explore_graph(res: Res, g: G, tier, seed, only=None):
                             res.violation("c_factor_ancestral", case3, f"{q}: {e}")
                             ok = False
                             break
-                        world = World({None: m})
+                        world = World({None: m, "π1": m})
                         for env in envs(m.card, {(n, None) for n in m.order}):
                             res.transitions += 1
                             do = frozenset((n, env[(n, None)]) for n in a if n not in d)
